@@ -13,7 +13,8 @@ the same addresses `base, base+1, …` (records without upvalues are one 8-byte 
 scope), and a later `@` overwrites the record a pending task still points to: when that task becomes due,
 `call_indirect` runs whatever function index is stored there *now*.
 
-This file extends the WASM model by that memory (`mem : address ↦ fn index`, cells of records without upvalues).
+This file extends the WASM model by that memory (`mem : address ↦ fn index`, cells of records without upvalues: `M.run`;
+records `[fn][captured words…]` of any size: `R.run`, last section).
 At the `Env` interface `Task.id` is the function a call names; in the heap `Task.id` is the record's address;
 `TickRec.execd` records the function that was actually run.
 -/
@@ -162,12 +163,101 @@ def M.run {σ H : Type} (ops : HeapOps H) (env : Env σ) (n : Nat) (s0 : σ) : R
       { currentTime := 0, heap := h, user := g.1, mem := a.2, allocPtr := g.2.length }
     { greqs := g.2, ticks := r.1, final := r.2 }
 
+/-! ### closure records with upvalues (records larger than one cell)
+
+`MakeClosure` writes `[fn_table_idx : i64][upvalue_0 : i64] … [upvalue_{n-1} : i64]` at `__alloc_ptr` and advances it by
+`1 + n` cells (`wasmgen.rs: I::MakeClosure`; a captured function argument is stored by value). When the task becomes due
+`_mimium_exec_closure_void` loads the word at the task's address, wraps it to `i32` and `call_indirect`s it with type
+`() -> ()`; the callee reads its upvalues at `address + 1 + i`. Because records of different sizes are laid out back to
+back from the same `base` by every body, a pending task's address can by then hold another record's function word, or
+one of another record's UPVALUE words (no function of that index/type in the table: the `call_indirect` traps,
+`on_sample` logs the error and goes on — the task is dropped), and its upvalue cells can hold anything.
+
+`RecFmt` abstracts the compiler-dependent part: which cells a closure's record consists of, and which closure (if any)
+the trampoline ends up running for the cells it finds. `R.run fmt` is `M.run` with that layout; `M.run` is the instance
+where every record is the single cell `[id]` (`unitFmt`, theorem `R.run_unitFmt`). -/
+
+structure RecFmt where
+  /-- the cells `MakeClosure` writes for closure `id`: function word, then the captured words -/
+  cells : Nat → List Nat
+  /-- what the trampoline runs for a record; `rd k` = the cell at `address + k`. `none`: `call_indirect` traps. -/
+  decode : (Nat → Nat) → Option Nat
+
+def unitFmt : RecFmt := ⟨fun id => [id], fun rd => some (rd 0)⟩
+
+def writeCells (m : Mem) (a : Nat) : List Nat → Mem
+  | [] => m
+  | c :: cs => writeCells (memSet m a c) (a + 1) cs
+
+/-- The `MakeClosure`s of one body with record sizes: each record goes right behind the previous one. -/
+def allocRecs (fmt : RecFmt) : Nat → List Task → Mem → List Task × Mem
+  | _, [], m => ([], m)
+  | a, x :: xs, m =>
+    let r := allocRecs fmt (a + (fmt.cells x.id).length) xs (writeCells m a (fmt.cells x.id))
+    (⟨x.when, a⟩ :: r.1, r.2)
+
+/-- number of cells the records of a list of calls occupy -/
+def recsSize (fmt : RecFmt) : List Task → Nat
+  | [] => 0
+  | x :: xs => (fmt.cells x.id).length + recsSize fmt xs
+
+def R.execAll {σ H : Type} (fmt : RecFmt) (ops : HeapOps H) (env : Env σ) (now base : Nat) :
+    List Task → H → σ → Mem → Option (H × σ × Mem × List Task × List Task)
+  | [], h, u, m => some (h, u, m, [], [])
+  | x :: xs, h, u, m =>
+    match fmt.decode (fun k => memGet m (x.id + k)) with
+    | none => R.execAll fmt ops env now base xs h u m   -- trap inside the trampoline: error logged, next task
+    | some fn =>
+      let b := env.task fn now u
+      let a := allocRecs fmt base b.2 m
+      match pushAllH ops now a.1 h with
+      | none => none
+      | some h1 =>
+        match R.execAll fmt ops env now base xs h1 b.1 a.2 with
+        | none => none
+        | some (h2, u2, m2, ex, rq) => some (h2, u2, m2, ⟨x.when, fn⟩ :: ex, b.2 ++ rq)
+
+def R.tick {σ H : Type} (fmt : RecFmt) (ops : HeapOps H) (env : Env σ) (t : Nat) (st : MSt σ H) :
+    Option (MSt σ H × TickRec) :=
+  let d := drainDueH ops t (ops.size st.heap) st.heap
+  match R.execAll fmt ops env t st.allocPtr d.1 d.2 st.user st.mem with
+  | none => none
+  | some (h, u, m, ex, rq) =>
+    let b := env.dsp t u
+    let a := allocRecs fmt st.allocPtr b.2 m
+    match pushAllH ops t a.1 h with
+    | none => none
+    | some h' =>
+      some ({ st with currentTime := t, heap := h', user := b.1, mem := a.2 }, { execd := ex, reqs := rq ++ b.2 })
+
+def R.run {σ H : Type} (fmt : RecFmt) (ops : HeapOps H) (env : Env σ) (n : Nat) (s0 : σ) : Run (MSt σ H) :=
+  let g := env.global s0
+  let a := allocRecs fmt 0 g.2 []
+  match pushAllH ops 0 a.1 ops.empty with
+  | none => { greqs := g.2, ticks := [], final := none }
+  | some h =>
+    let r := runFrom (R.tick fmt ops env) n 0
+      { currentTime := 0, heap := h, user := g.1, mem := a.2, allocPtr := recsSize fmt g.2 }
+    { greqs := g.2, ticks := r.1, final := r.2 }
+
 /-- Witness program of F17: `t2@1`, `t3@2` from global scope; `t2` schedules `t0@(now+2)`, `t3` schedules `t1@(now+2)`;
 `t0`, `t1` schedule nothing. -/
 def f17Env : Env Unit where
   global := fun _ => ((), [⟨1, 2⟩, ⟨2, 3⟩])
   task := fun id now _ => ((), if id = 2 then [⟨now + 2, 0⟩] else if id = 3 then [⟨now + 2, 1⟩] else [])
   dsp := fun _ _ => ((), [])
+
+/-- a program with records of two sizes: closure 10 captures a word (`cells 10 = [100, 999]`), the others are one cell.
+`t3@1` (schedules `t0`, `t1` for `now+5`: records at `base`, `base+1`), `t2@2` (schedules closure 10 for `now+1`: record
+at `base`, `base+1`). -/
+def recEnv : Env Unit where
+  global := fun _ => ((), [⟨1, 3⟩, ⟨2, 2⟩])
+  task := fun id now _ => ((), if id = 3 then [⟨now + 5, 0⟩, ⟨now + 5, 1⟩] else if id = 2 then [⟨now + 1, 10⟩] else [])
+  dsp := fun _ _ => ((), [])
+
+def recFmt : RecFmt where
+  cells := fun id => if id = 10 then [100, 999] else [1 + id]
+  decode := fun rd => if rd 0 = 100 then some 10 else if 1 ≤ rd 0 ∧ rd 0 < 100 then some (rd 0 - 1) else none
 
 /-- a self-rescheduling counter (`scheduler_global_recursion.mmm`): premise holds, the chain theorem applies. -/
 def counterEnv : Env Nat where
